@@ -15,7 +15,7 @@
        both signs, or NewHashmap with unsorted keys, silently produced a
        dictionary with different keys. *)
 From Coq Require Import List NArith ZArith Arith Lia Bool Sorted.
-From Tongo Require Import Lib.Bits Lib.Res Spec.Dict Model.Hashmap.
+From Tongo Require Import Lib.Bits Lib.Res Spec.Dict Model.Hashmap Model.HashmapHist.
 Import ListNotations.
 
 (** Hashmap.MarshalTLB / HashmapE.MarshalTLB before the repair: no sort *)
@@ -91,3 +91,30 @@ Lemma unsorted_slice_fixed :
   exists c, encode_e venc_bit 8 w_u = Ok c /\
     decode_e vdec_bit 8 c = Ok [(bits_of 8 1, true); (bits_of 8 2, true); (bits_of 8 200, false)].
 Proof. vm_compute. eexists. split; reflexivity. Qed.
+
+(** ** 3. a design that was never shipped but is a natural refactoring of repair 2
+    (seeded change C05-r2m2): sort.Stable over (fresh key slice, the receiver's
+    value slice).  MarshalTLB has a value receiver, but the slice header still
+    points at the caller's array: the caller's values end up in bit order under
+    keys that kept their order ([marshal_in_place_state]).  NewHashmapE with
+    the Uint8 keys 200, 1: the FIRST encoding is right; the object then maps
+    200 and 1 to each other's values and the SECOND encoding differs. *)
+Definition w_p : list (bits * bool) := [(bits_of 8 200, false); (bits_of 8 1, true)].
+
+Lemma marshal_in_place_design_refuted :
+  let st2 := marshal_in_place_state w_p in
+  st2 = [(bits_of 8 200, true); (bits_of 8 1, false)] /\
+  get bits_eqb (bits_of 8 200) st2 <> get bits_eqb (bits_of 8 200) w_p /\
+  exists c1 c2, encode_e venc_bit 8 w_p = Ok c1 /\ encode_e venc_bit 8 st2 = Ok c2 /\ c1 <> c2 /\
+    decode_e vdec_bit 8 c1 = Ok [(bits_of 8 1, true); (bits_of 8 200, false)] /\
+    decode_e vdec_bit 8 c2 = Ok [(bits_of 8 1, false); (bits_of 8 200, true)].
+Proof.
+  cbn zeta. split; [reflexivity|]. split; [vm_compute; discriminate|].
+  vm_compute. eexists. eexists. repeat split; try reflexivity. discriminate.
+Qed.
+
+(** the shipped code (the model): Marshal is a function of the pair list, the
+    object is not part of its result, so the same object encodes the same twice *)
+Lemma marshal_twice_same_fixed :
+  forall r1 r2, r1 = encode_e venc_bit 8 w_p -> r2 = encode_e venc_bit 8 w_p -> r1 = r2.
+Proof. intros r1 r2 -> ->. reflexivity. Qed.
